@@ -277,7 +277,7 @@ def ephem_case(change):
     carries the ephemeris' frame -- also after the ephemeris has been interpolated once and then moved to another frame
     (`ephem.frame = ...`, the usage shown in the class docstring); `change` = False: no frame change (baseline)"""
     ins = [(f"t{i}", "real") for i in range(3)] + [(f"p{i}{k}", "real") for i in range(3) for k in range(6)] + \
-          [("x", "real"), ("psi", "angle", {"lo": "free"})]
+          [("x", "real"), ("psi", "angle", {"lo": "free"})] + ([("sc", "real")] if change == "form" else [])
 
     def pre(v):
         return [v["t0"] < v["t1"], v["t1"] < v["t2"], v["t0"] <= v["x"], v["x"] <= v["t2"]]
@@ -303,8 +303,34 @@ def ephem_case(change):
             try:
                 dates = [D(v[f"t{i}"]) for i in range(3)]
                 orbs = [carrier([v[f"p{i}{k}"] for k in range(6)], date=dates[i], frame=fr.EME2000, form=forms.CART) for i in range(3)]
+                if change == "form":
+                    # the form conversion itself is C01's: here it is a stub, an arbitrary scaling `sc` of the six numbers
+                    from symx.stubs import Carrier
+
+                    class FC(Carrier):
+                        @property
+                        def form(self):
+                            return self.__dict__.get("form")
+
+                        @form.setter
+                        def form(self, new):
+                            if self.__dict__.get("form") is forms.CART and new == "spherical":
+                                for k in range(6):
+                                    np.ndarray.__setitem__(self, k, np.ndarray.__getitem__(self, k) * v["sc"])
+                            self.__dict__["form"] = new
+                    orbs = [o.view(FC) for o in orbs]
+                    for o, d in zip(orbs, dates):
+                        o.date, o.frame = d, fr.EME2000
+                        o.__dict__["form"] = forms.CART
                 e = eph.Ephem(orbs, method="linear")
                 e.interpolate(D(v["x"]))                        # first use: the interpolator is built
+                if change == "form":
+                    e.form = "spherical"
+                    node = e.interpolate(dates[1])
+                    mid = e.interpolate(D(v["x"]))
+                    lab = node.form == "spherical" and mid.form == "spherical" and all(o.form == "spherical" for o in e)
+                    return {"node": [node[k] - e[1][k] for k in range(6)], "label": Holds(SB(z3.BoolVal(bool(lab)))),
+                            "between": [_between(mid[k], e, v, k) for k in range(6)]}
                 if change:
                     e.frame = fr.MOD
                 node = e.interpolate(dates[1])
@@ -327,15 +353,21 @@ def ephem_case(change):
         e = Ephem(orbs, method="linear")
         xq = dates[0] + timedelta(seconds=600 * (min(max(float(v["x"]), ts[0]), ts[2]) - ts[0]) / max(ts[2] - ts[0], 1e-9))
         e.interpolate(xq)
-        if change:
+        if change == "form":
+            e.form = "spherical"
+        elif change:
             e.frame = "MOD"
         node = e.interpolate(dates[1])
         mid = e.interpolate(xq)
-        lab = node.frame.name == ("MOD" if change else "EME2000") and mid.frame.name == node.frame.name
+        lab = node.frame.name == ("MOD" if change is True else "EME2000") and mid.frame.name == node.frame.name
+        if change == "form":
+            lab = lab and node.form.name == "spherical" and mid.form.name == "spherical"
         lo, hi = (0, 1) if xq <= dates[1] else (1, 2)
         w = (xq - dates[lo]).total_seconds() / (dates[hi] - dates[lo]).total_seconds()
         exp = np.array(e[lo]) * (1 - w) + np.array(e[hi]) * w
         sc = np.array([7e6] * 3 + [7.5e3] * 3) * 1e-3
+        if change == "form":
+            sc = np.array([7e6, 1, 1, 7.5e3, 1e-3, 1e-3]) * 1e-3
         return {"node": list((np.array(node) - np.array(e[1])) / sc), "label": Holds(bool(lab)),
                 "between": list((np.array(mid) - exp) / sc)}
 
@@ -349,6 +381,12 @@ def ephem_case(change):
 
     def ref(env, v, out):
         return {"node": [0] * 6, "label": None, "between": [0] * 6}
+    if change == "form":
+        return Case("ephem/form_change", ins, run, ref, pre=pre, timeout=90, maxpaths=200, tol=0, abs_tol=1e-7,
+                    signature="Ephem.interpolate after a form change returns stale coordinates",
+                    desc="Ephem (linear): after a first interpolation and `ephem.form = spherical` (the conversion of the six numbers "
+                         "stubbed by an arbitrary scaling; real conversion in the replay) interpolation at a node returns the node, "
+                         "between nodes the linear interpolant of the ephemeris' current points, labelled with the new form")
     return Case(f"ephem/{'frame_change' if change else 'plain'}", ins, run, ref, pre=pre, timeout=90, maxpaths=200, tol=0, abs_tol=1e-7,
                 signature="Ephem.interpolate after a frame change returns stale coordinates" if change else None,
                 desc="Ephem (linear): interpolation at a node returns the node, between nodes the linear interpolant of the "
@@ -437,7 +475,7 @@ def all_cases(tier):
         for w in ("first", "middle", "last"):
             cs.append(basis_case(o, w))
     cs += [node_case(2), node_case(3), node_case(4), linear_case(), outside_case("lagrange"), outside_case("linear")]
-    cs += [ephem_case(False), ephem_case(True)]
+    cs += [ephem_case(False), ephem_case(True), ephem_case("form")]
     cs += [ephem_setting_case(k) for k in ("order_after", "method_after", "order_before")]
     if tier != "quick":
         cs.append(node_case(8))
